@@ -27,9 +27,15 @@ def guarded_parse(text, lx=None, ps=None, tree=True):
     try:
         if tree:
             return impl.real_parse(text, lx, ps)
-        # long inputs: outcome class only (the tree can be deeper than the harness can encode)
+        # long inputs: outcome class only (the tree can be deeper than the harness can encode); parsed under the interpreter's DEFAULT recursion
+        # limit - the harness raises the limit for its own encoder, and a user's process has the default
+        rl = sys.getrecursionlimit()
         try:
-            r = (ps or ODataParser()).parse((lx or ODataLexer()).tokenize(text))
+            sys.setrecursionlimit(1000)
+            try:
+                r = (ps or ODataParser()).parse((lx or ODataLexer()).tokenize(text))
+            finally:
+                sys.setrecursionlimit(rl)
         except Exception as e:  # noqa
             return impl.canon_exc(e).split(" ")[0] + " " + impl.canon_exc(e).split(" ")[1] if impl.canon_exc(e).startswith("lib") else impl.canon_exc(e)
         return "ok" if isinstance(r, ast._Node) else "nonnode " + type(r).__name__
@@ -59,7 +65,10 @@ def long_inputs(ctx):
     # the real parser is quadratic in the number of path segments (0.6 s at 1000, 10 s at 4000 on this machine): sizes are kept where the
     # per-case budget is >= 20x the unloaded time, so that a loaded machine cannot turn slowness into a reported non-termination
     for n in ([100, 1000] + ([2500] if ctx.thorough else [])):
-        out += ["/".join(["seg"] * n) + " eq 1", "/".join(["s"] * n) + "/any()", "/".join(["s"] * n) + "/"]
+        out += ["/".join(["seg"] * n) + " eq 1", "/".join(["s"] * n) + "/any()", "/".join(["s"] * n) + "/",
+                # two features together: a long path that ENDS in a lambda / is the owner inside one / is called
+                "/".join(["s"] * n) + "/any(x: x eq 1)", "/".join(["s"] * n) + "/all(x: x/a gt 1)", "c/any(x: " + "/".join(["x"] * n) + " eq 1)",
+                "/".join(["s"] * n) + "/any(x: x/" + "/".join(["t"] * min(n, 300)) + "/any())", "f.g(" + "/".join(["s"] * n) + ")", "a in (" + "/".join(["s"] * n) + ", 1)"]
     return list(dict.fromkeys(out))
 
 def run(ctx):
